@@ -79,8 +79,10 @@ class CCodeMapper(SimplifyingSortingStringifyMapper):
         super().__init__(reverse)
         self.cse_prefix = cse_prefix
 
-        self.cse_to_name = {cse: name for name, cse in cse_name_list}
-        self.cse_names = {cse for name, cse in cse_name_list}
+        # cse_name_list holds (name, code) pairs. The expressions they were
+        # generated from are not known here (see copy()).
+        self.cse_to_name = {}
+        self.cse_names = {name for name, _cse_str in cse_name_list}
         self.cse_name_list = cse_name_list[:]
 
         self.complex_constant_base_type = complex_constant_base_type
@@ -88,9 +90,14 @@ class CCodeMapper(SimplifyingSortingStringifyMapper):
     def copy(self, cse_name_list=None):
         if cse_name_list is None:
             cse_name_list = self.cse_name_list
-        return CCodeMapper(self.reverse,
+        result = CCodeMapper(self.reverse,
                 self.cse_prefix, self.complex_constant_base_type,
                 cse_name_list)
+        # Subexpressions that already have an assignment in the list keep it.
+        result.cse_to_name = {
+                cse: name for cse, name in self.cse_to_name.items()
+                if name in result.cse_names}
+        return result
 
     def copy_with_mapped_cses(self, cses_and_values):
         return self.copy(self.cse_name_list + cses_and_values)
@@ -219,7 +226,7 @@ class CCodeMapper(SimplifyingSortingStringifyMapper):
             self.cse_to_name[expr.child] = cse_name
             self.cse_names.add(cse_name)
 
-            assert len(self.cse_names) == len(self.cse_to_name)
+            assert len(self.cse_names) == len(self.cse_name_list)
 
         return cse_name
 
